@@ -1,11 +1,14 @@
 import os, subprocess
 SP='testtools/twistedsupport/_spinner.py'; RT='testtools/twistedsupport/_runtest.py'
-OUT='/tmp/react-scratch/mut'
+OUT=os.path.join(os.path.dirname(os.path.abspath(__file__)), 'near-miss')
 def make(name, f, a, b):
     wt='/tmp/react-mm'
     subprocess.run(['git','-C','/repo','worktree','remove','--force',wt],capture_output=True)
     subprocess.run(['git','-C','/repo','worktree','add','-q','--detach',wt],check=True)
-    p=os.path.join(wt,f); s=open(p).read(); assert s.count(a)>=1,(name,a[:50]); open(p,'w').write(s.replace(a,b,1))
+    p=os.path.join(wt,f); s=open(p).read()
+    for a, b in (a if isinstance(a, list) else [(a, b)]):
+        assert s.count(a)>=1,(name,a[:50]); s=s.replace(a,b,1)
+    open(p,'w').write(s)
     subprocess.run(['/venv/bin/python','-m','py_compile',p],check=True)
     open(os.path.join(OUT,name+'.diff'),'w').write(subprocess.run(['git','-C',wt,'diff'],capture_output=True,text=True).stdout)
     subprocess.run(['git','-C','/repo','worktree','remove','--force',wt],capture_output=True)
@@ -58,4 +61,50 @@ make('M19-junk-not-failing',RT,'''        if junk:
             self._log_user_exception''','''        if junk:
             self._log_user_exception''')
 make('M20-broken-iterations-1',RT,'spinner._OBLIGATORY_REACTOR_ITERATIONS = 2','spinner._OBLIGATORY_REACTOR_ITERATIONS = 1')
+OLD_SAVE = """        available_signals = [
+            getattr(signal, name, None) for name in self._PRESERVED_SIGNALS
+        ]
+        self._saved_signals = [
+            (sig, signal.getsignal(sig)) for sig in available_signals if sig
+        ]"""
+make('M21-save-only-first-signal',SP,OLD_SAVE,"""        available_signals = [
+            getattr(signal, name, None) for name in self._PRESERVED_SIGNALS[:1]
+        ]
+        self._saved_signals = [
+            (sig, signal.getsignal(sig)) for sig in available_signals if sig
+        ]""")
+make('M22-save-without-filter',SP,OLD_SAVE,"""        available_signals = [
+            getattr(signal, name, None) for name in self._PRESERVED_SIGNALS
+        ]
+        self._saved_signals = [
+            (sig, signal.getsignal(sig)) for sig in available_signals
+        ]""")
+make('M23-save-appends-to-old-list',SP,OLD_SAVE,"""        for name in self._PRESERVED_SIGNALS:
+            sig = getattr(signal, name, None)
+            if sig:
+                self._saved_signals.append((sig, signal.getsignal(sig)))""")
+make('M24-save-after-reactor-run',SP,[("""            self._save_signals()
+            self._timeout_call""","""            self._timeout_call"""),("""                self._reactor.stop = real_stop
+                self._restore_signals()""","""                self._reactor.stop = real_stop
+                self._save_signals()
+                self._restore_signals()""")],None)
+make('M25-save-loop-breaks-after-first',SP,OLD_SAVE,"""        saved = []
+        for name in self._PRESERVED_SIGNALS:
+            sig = getattr(signal, name, None)
+            if sig:
+                saved.append((sig, signal.getsignal(sig)))
+                break
+        self._saved_signals = saved""")
+make('M26-restore-reversed-without-reset',SP,"""        for sig, hdlr in self._saved_signals:
+            signal.signal(sig, hdlr)
+        self._saved_signals = []""","""        for sig, hdlr in reversed(self._saved_signals):
+            signal.signal(sig, hdlr)""")
+make('M27-save-loop-without-filter',SP,OLD_SAVE,"""        saved = []
+        for name in self._PRESERVED_SIGNALS:
+            sig = getattr(signal, name, None)
+            saved.append((sig, signal.getsignal(sig)))
+        self._saved_signals = saved""")
+# (saving or restoring in the reverse order is NOT a near miss: every pair carries its own signal number and the preserved names are
+# distinct, so the order of the pairs is not observable; the recogniser nevertheless asks for the declared order, so such a rewrite
+# would alarm with no-failing-input-found)
 print(len(os.listdir(OUT)))
